@@ -53,6 +53,7 @@ use crate::network::RaftHealthMonitor;
 use crate::utils::async_task::task_with_timeout_and_exponential_backoff;
 use crate::utils::net::address_str;
 
+#[cfg_attr(feature = "verif-hooks", allow(missing_docs))]
 pub struct RaftMembership<T>
 where
     T: TypeConfig,
